@@ -189,6 +189,11 @@ func streamEngine(seed uint64, n int, driver, corpus, dump, variant string) (*Su
 		case "nearsuccess":
 			g.NearSuccess = true
 			g.Populated = true
+		case "prepop":
+			// successful Parses into destinations that already hold values (second Parse into the same
+			// variable, pre-filled structs, slices with spare capacity)
+			g.NearSuccess = true
+			g.Prepop = true
 		case "share":
 			g.Share = true
 			g.CatchBias = i%2 == 0
